@@ -258,6 +258,34 @@ def stats(out, it):
         out.outcomes.setdefault("model:" + m, 1)
 
 
+SECOND = {"every": 0}
+
+
+def cvc5_verdict(pid, solver, timeout_s, name):
+    if not shutil.which("cvc5"):
+        return None
+    d = os.path.join(common.WORK, "smt")
+    os.makedirs(d, exist_ok=True)
+    path = os.path.join(d, "%s-%s-%d.smt2" % (pid, re.sub(r"[^\w.-]", "_", name), os.getpid()))
+    with open(path, "w") as f:
+        f.write("(set-logic ALL)\n" + solver.to_smt2().replace("(set-logic", "; (set-logic"))
+    try:
+        p = subprocess.run(["cvc5", "--lang", "smt2", "--tlimit=%d" % (timeout_s * 1000), path], capture_output=True, text=True, timeout=timeout_s + 30)
+    except subprocess.TimeoutExpired:
+        return None
+    finally:
+        try:
+            os.unlink(path)
+        except OSError:
+            pass
+    if "(error" in p.stdout or "(error" in p.stderr:
+        raise Inconclusive("cvc5 error on %s: %s" % (name, (p.stdout + p.stderr)[:300]))
+    o = p.stdout.strip().splitlines()
+    if o and o[0] in ("sat", "unsat"):
+        return o[0]
+    return None
+
+
 class Asserter:
     """assertions of one run: an assertion of the other property is skipped (it belongs to the other check)"""
 
@@ -269,7 +297,24 @@ class Asserter:
             return True
         info = dict(self.base)
         info.update(extra)
-        return self.out.require(self.ctx, cond, what, self.inputs, kind=kind, **info)
+        ok = self.out.require(self.ctx, cond, what, self.inputs, kind=kind, **info)
+        every = SECOND["every"]
+        if every and not z3.is_false(z3.simplify(z3.Not(cond))) and not z3.is_true(z3.simplify(z3.Not(cond))):
+            # second opinion (cvc5) on a seeded sample of the verdict queries that are not decided by rewriting alone
+            h = int(hashlib.sha1(repr((common.seed(), self.pid, kind, self.base.get("label"), tuple(self.ctx.trace), self.out.checks)).encode()).hexdigest()[:8], 16)
+            if h % every == 0:
+                sol = z3.Solver()
+                sol.add(*self.ctx.pc)
+                sol.add(z3.Not(cond))
+                v2 = cvc5_verdict(self.pid, sol, 60, "%s-%08x" % (kind, h))
+                self.out.outcome("second:asked")
+                if v2 is None:
+                    self.out.outcome("second:no_answer")
+                elif (v2 == "unsat") != ok:
+                    raise Inconclusive("solver disagreement on a verdict query (%s): z3 %s, cvc5 %s" % (kind, "unsat" if ok else "sat", v2))
+                else:
+                    self.out.outcome("second:agree")
+        return ok
 
     def violation(self, prop, kind, what, **extra):
         if prop != "both" and prop != self.pid:
@@ -504,7 +549,7 @@ def step_body(par, lay, pid, L, p):
         A.require("both", z3.BoolVal(lay.token[nm] < lay.token["EOF"]), "token-kind", "read_token returns a kind that is not below EOF (the assert in lex fails)", token=nm)
         A.require("both", z3.UGT(off2.t, bv(p, 64)), "progress", "read_token consumes no byte (token loop without progress)", token=nm)
         A.require("both", z3.ULE(off2.t, bv(L, 64)), "cursor-inside", "the cursor runs past the end of the text", token=nm)
-        A.require("C16", boundary_of_term(bs, z3.Extract(31, 0, off2.t)), "char-boundary", "a token ends inside a multi-byte character", token=nm)
+        A.require("both", boundary_of_term(bs, z3.Extract(31, 0, off2.t)), "char-boundary", "a token ends inside a multi-byte character (the next `content[offset..]` panics)", token=nm)
         errs = [error_parts(e) for e in errs2.elems]
         check_errors(A, errs, L, "read_token of " + nm)
         if not is_lazy(br2):
@@ -642,7 +687,8 @@ OBLIGATIONS = {
         "skel": ["no panic/unwrap/expect/index/overflow assertion reachable in lex", "every token consumes >= 1 byte; tokens <= L + 1 (termination)",
                  "every error span inside [0, L]"],
         "step": ["no panic reachable in is_eof/offset/read_token from any INV state", "is_eof false in front of the end", "token kind < EOF",
-                 "cursor advances (>= 1 byte)", "cursor <= L", "every error span inside [0, L]", "INV re-established"],
+                 "cursor advances (>= 1 byte)", "cursor <= L", "new cursor is a char boundary (precondition of the next step)",
+                 "every error span inside [0, L]", "INV re-established"],
         "eof": ["is_eof holds at cursor == L"],
         "lines": ["no panic in compute_line_starts", "no panic in compute_line_column for every offset 0..L", "no panic in get_line_content for every line 0..lines+1"],
     },
@@ -984,8 +1030,8 @@ def validate_translator(par, lay, nat):
 TIERS = {
     # whole: text lengths explored by brute force; step: max text length of the step family (grown while time permits
     # between min and max); skel_k: free bytes per skeleton; lines: text lengths of the line-table family
-    "quick": {"whole": 2, "step_min": 5, "step_max": 6, "skel_k": 2, "lines": 5, "budget_s": 150, "cap_s": 900},
-    "thorough": {"whole": 3, "step_min": 6, "step_max": 8, "skel_k": 3, "lines": 7, "budget_s": 1300, "cap_s": 2700},
+    "quick": {"whole": 2, "step_min": 5, "step_max": 6, "skel_k": 2, "lines": 5, "budget_s": 150, "cap_s": 900, "second_every": 200},
+    "thorough": {"whole": 3, "step_min": 6, "step_max": 8, "skel_k": 3, "lines": 7, "budget_s": 1300, "cap_s": 2700, "second_every": 1000},
 }
 
 
@@ -1018,6 +1064,7 @@ def run2(pid, tier, t0, par, lay, nat):
     cfg["step_max"] = max(cfg["step_min"], env_int("VERIF_LEX_STEP_MAX", cfg["step_max"]))
     cfg["skel_k"] = env_int("VERIF_LEX_SKEL", cfg["skel_k"])
     cfg["lines"] = env_int("VERIF_LEX_LINES", cfg["lines"])
+    SECOND["every"] = cfg["second_every"]
     nval, n_lex_texts, n_line_texts = validate_translator(par, lay, nat)
     log("[%s] translator validated on %d concrete calls (%d + %d unit-test texts of lexer.rs / lib.rs) in %.1fs" %
         (pid, nval, n_lex_texts, n_line_texts, time.time() - t0))
@@ -1081,6 +1128,10 @@ def finish(pid, tier, t0, cfg, reached, results, nat, nval, n_lex_texts, n_line_
     stime = 0.0
     fns, models_used = set(), set()
     vac, samples, per, fam_paths = {}, [], {}, {}
+    second = {"asked": 0, "agree": 0, "no_answer": 0}
+    hooks = {"Lexer::read_token": "observer around the real function (reports a call that does not move the cursor)",
+             "keywords_in_map": "the real function, executed once per interpreter instance, value reused"}
+    reported = set()
     for name, (out, st) in results.items():
         fam = name.split("/")[0]
         obl = OBLIGATIONS[pid][fam]
@@ -1091,11 +1142,13 @@ def finish(pid, tier, t0, cfg, reached, results, nat, nval, n_lex_texts, n_line_
         checks += out.checks
         pruned += st["pruned"]
         stime += st["solver_time"]
-        for k in out.outcomes:
+        for k, x in out.outcomes.items():
             if k.startswith("fn:"):
                 fns.add(k[3:])
             elif k.startswith("model:"):
                 models_used.add(k[6:])
+            elif k.startswith("second:"):
+                second[k[7:]] += x
         for k in out.witness:
             vac[k] = True
         if out.samples and len(samples) < 12 and (fam not in [s.get("harness", "").split("/")[0] for s in samples] or len(samples) < 6):
@@ -1106,19 +1159,21 @@ def finish(pid, tier, t0, cfg, reached, results, nat, nval, n_lex_texts, n_line_
                      "solver_time_s": round(st["solver_time"], 2)}
         if out.paths == 0:
             raise Inconclusive("harness %s explored no path (vacuous)" % name)
+        bad = bool(out.violations)
         seen = set()
-        bad = False
         for v in out.violations:
-            key = "%s/%s" % (fam if fam != "skel" else name, v["kind"])
-            if key in seen:
+            # one native replay per harness and kind of violated obligation (each must reproduce), one report per family and kind
+            if v["kind"] in seen:
                 continue
-            seen.add(key)
+            seen.add(v["kind"])
+            key = "%s/%s" % (fam, v["kind"])
             ok, detail = replay_violation(nat, pid, v)
             if not ok:
                 raise Inconclusive("counterexample of %s (%s) does not reproduce on the real function: %s" %
                                    (name, v["what"], json.dumps(detail, default=str)[:700]))
-            rep.violation(key, "%s — real lex: %s (text bytes %s)" % (v["what"], detail["observed"], detail["text_hex"]), detail)
-            bad = True
+            if key not in reported:
+                reported.add(key)
+                rep.violation(key, "%s — real lex: %s (text bytes %s)" % (v["what"], detail["observed"], detail["text_hex"]), detail)
         if not bad:
             discharged += len(obl)
         per[name]["violated"] = sorted(set(x["kind"] for x in out.violations))
@@ -1160,12 +1215,14 @@ def finish(pid, tier, t0, cfg, reached, results, nat, nval, n_lex_texts, n_line_
         "trusted_base": ["rustc -Zunpretty=mir dump reflects the compiled functions",
                          "vsym MIR interpreter + std models (validated on %d concrete calls against the natively compiled real functions: the %d texts of lexer.rs's "
                          "own unit tests + %d more, the %d texts of lib.rs's line tests + %d more)" % (nval, n_lex_texts, len(EXTRA_TEXTS), n_line_texts, len(EXTRA_LINE_TEXTS)),
-                         "z3 %s" % z3.get_version_string(),
+                         "z3 %s; cvc5 second opinion on a seeded sample of the verdict queries not decided by rewriting (%d asked, %d agree, %d no answer)" %
+                         (z3.get_version_string(), second["asked"], second["agree"], second["no_answer"]),
                          "UTF-8 well-formedness formula (Unicode table 3-7)", "Unicode White_Space set in the model of char::is_whitespace",
                          "independent specification of line breaks (LF, CRLF, lone CR) in vsym/lexcheck.py",
                          "the induction argument from single loop iterations to whole texts (paper)"],
         "functions_encoded": sorted(fns),
-        "std_models_used": sorted(models_used),
+        "std_models_used": sorted(m for m in models_used if m not in hooks),
+        "hooks": hooks, "second_solver": second,
         "bounds": bounds,
         "paths": paths, "paths_per_family": fam_paths, "queries": queries, "assertion_queries": checks, "pruned_branches": pruned,
         "solver_time_s": round(stime, 2), "per_harness": per,
